@@ -7,8 +7,10 @@ EXTENDS LdsView, TLC
 CONSTANT Full                      \* TRUE: every optional subset; FALSE: subsets of size <= 2 or >= all-1 (pairwise)
 VARIABLE c
 
-Subsets(S) == IF Full THEN SUBSET S ELSE {P \in SUBSET S : Cardinality(P) <= 2 \/ Cardinality(P) >= Cardinality(S) - 1}
-EncSet == IF Full THEN {e \in Encodings : e.lengthForm = 0 \/ e.order = "table"} ELSE Encodings
+Pairwise(S) == {P \in SUBSET S : Cardinality(P) <= 2 \/ Cardinality(P) >= Cardinality(S) - 1}
+\* quick: pairwise subsets x every encoding; full: additionally EVERY subset in the plain encoding
+TaggedCases(k) == {<< "tagged", k, P, n, e >> : P \in Pairwise(Opt(k)), n \in 0..MaxRep, e \in Encodings}
+                  \cup (IF Full THEN {<< "tagged", k, P, n, PlainEncoding >> : P \in SUBSET Opt(k), n \in 0..MaxRep} ELSE {})
 \* the ICAO application profile of ISO/IEC 39794-5 allows exactly one representation per block
 TplOK(t) == t.enc = "iso39794" => t.n = 1
 Tpls == UNION {{s \in [1..len -> [enc : BitEncodings, n : 1..MaxRep]] : \A i \in 1..len : TplOK(s[i])} : len \in 1..MaxRep}
@@ -17,7 +19,7 @@ Counts == IF Full THEN [InfoTypes -> 0..2]
           ELSE {cn \in [InfoTypes -> 0..2] : Cardinality({t \in InfoTypes : cn[t] = 2}) <= 1 /\ Cardinality({t \in InfoTypes : cn[t] > 0}) <= 3}
 
 Cases ==
-       UNION {{<< "tagged", k, P, n, e >> : P \in Subsets(Opt(k)), n \in 0..MaxRep, e \in EncSet} : k \in {"DG11", "DG12"}}
+       UNION {TaggedCases(k) : k \in {"DG11", "DG12"}}
   \cup {<< "dg2", t >> : t \in Tpls}
   \cup {<< "repeated", k, n, lf >> : k \in {"DG7", "DG16"}, n \in 1..MaxRep, lf \in 0..2}
   \cup {<< "secinfos", k, cn, ids, ord >> : k \in {"DG14", "CardAccess", "CardSecurity"}, cn \in Counts, ids \in BOOLEAN, ord \in {"table", "permuted"}}
